@@ -331,7 +331,7 @@ func runOne(sc *scen, st sched.Strategy, settle bool, hit map[int]bool) result {
 
 func genScen(rng *rand.Rand) *scen {
 	sc := &scen{Readers: 1 + rng.Intn(3), Reads: 1 + rng.Intn(2), Writers: 1 + rng.Intn(2), Packets: 1 + rng.Intn(3), Seed: rng.Int63()}
-	if rng.Intn(3) == 0 {
+	if rng.Intn(2) == 0 {
 		sc.Close = true
 	}
 	switch rng.Intn(8) {
@@ -457,7 +457,7 @@ func main() {
 		r.Write(*out)
 		return
 	}
-	n := 1000
+	n := 2000
 	if *tier == "thorough" {
 		n = 20000
 	}
@@ -471,6 +471,8 @@ func main() {
 		{Readers: 2, Reads: 1, Writers: 1, Packets: 1, Close: true},
 		{Readers: 1, Reads: 1, Writers: 1, Packets: 1, Deadline: "past"},
 		{Readers: 2, Reads: 1, Writers: 2, Packets: 1},
+		{Readers: 2, Reads: 1, Writers: 1, Packets: 2, Close: true},
+		{Readers: 2, Reads: 2, Writers: 1, Packets: 2, Close: true},
 	}
 	dsc := shapes[*shard%len(shapes)]
 	dsc.Strategy = "dfs"
